@@ -1215,6 +1215,24 @@ def cond_value(c, records):
             3: lambda: vs[0][1][0] == 1, 4: lambda: vs[0][0] + 2 * vs[1][0] > 1}[e]()
 
 
+class Timeout(Exception):
+    pass
+
+
+def with_timeout(seconds, f):
+    import signal
+
+    def handler(signum, frame):
+        raise Timeout()
+    old = signal.signal(signal.SIGALRM, handler)
+    signal.setitimer(signal.ITIMER_REAL, seconds)
+    try:
+        return f()
+    finally:
+        signal.setitimer(signal.ITIMER_REAL, 0)
+        signal.signal(signal.SIGALRM, old)
+
+
 def until_defect(cirq, V, prep, D, maxk=6):
     """'' | defect kind.  The loop must stop after the first iteration whose records satisfy the condition."""
     until = D['until']
@@ -1241,9 +1259,9 @@ def until_defect(cirq, V, prep, D, maxk=6):
             break
     if kstar is None:
         return 'skip'
-    w = attempt(lambda: records_of(cirq, cirq.Circuit(pre + [cirq.Moment(V.sub(D)), fin])))
+    w = attempt(lambda: with_timeout(2, lambda: records_of(cirq, cirq.Circuit(pre + [cirq.Moment(V.sub(D)), fin]))))
     if w[0] != 'ok':
-        return 'until-raises-' + w[1]
+        return 'until-does-not-stop' if w[1] == 'Timeout' else 'until-raises-' + w[1]
     if w[1] != want:
         return 'until-iteration-count'
     return ''
@@ -1263,6 +1281,8 @@ def until_stream(ctx, cirq, V, n):
         if not inner:
             continue
         rec['until'] = rcond(rng, lambda: ((), rng.choice(inner)), len(inner))
+        if rng.random() < 0.6 and rec['until'][0] != 'sym':       # most loops use a plain key condition (not hit by F2)
+            rec['until'] = ('key', rec['until'][1], -1)
         built = attempt(lambda: V.sub(rec))
         if built[0] != 'ok':
             continue
